@@ -37,7 +37,7 @@ VARIANTS = (
     + [("quaternion_schur_unified", {"variant": v, "precompute_shifts": ps}) for v in ("none", "rayleigh", "implicit", "aed", "ds") for ps in ((True, False) if v in ("aed", "ds") else (True,))]
     + [("quaternion_schur_experimental", {"variant": v}) for v in ("aed_windowed", "francis_ds")]
 )
-CLASSES = ["generic", "hermitian", "hermitian_repeat", "triu", "normal", "rank1", "q8int", "zero_first_col", "zero_subdiag", "identity", "zero"]
+CLASSES = ["generic", "hermitian", "hermitian_repeat", "triu", "normal", "rank1", "q8int", "zero_first_col", "zero_subdiag", "identity", "zero", "near_hermitian", "near_triu"]
 
 
 def vname(fn, kw):
@@ -93,6 +93,12 @@ def make(cls, n, fill):
         if n >= 2:
             k = n // 2
             A[k:, :k] = 0
+    elif cls == "near_hermitian":
+        A = 0.5 * (A + O.qH(A)) + np.ldexp(fill.quat(n, n, bits=3, lo=-16, hi=16), -22)
+    elif cls == "near_triu":
+        P_ = np.ldexp(fill.quat(n, n, bits=3, lo=-16, hi=16), -22)
+        for i in range(n):
+            A[i, :i] = P_[i, :i]
     elif cls == "identity":
         A = O.qeye(n)
     elif cls == "zero":
